@@ -244,6 +244,19 @@ def solve_obligation(ob: Obligation, rlimit, model_vars):
                 ob.model = {"_error": repr(exc)}
             break
         ob.reason = f"z3 unknown: {s.reason_unknown()}"
+    if verdict == "undecided":
+        # (for the canary a model of the path condition found here shows non-vacuity; it needs no replay)
+        for bound in (FM_BOUNDS if ob.kind != "canary" else FM_BOUNDS[:2] + (8,)):
+            try:
+                m = finite_model_search(ob, bound, model_vars)
+            except Exception as exc:  # pragma: no cover
+                ob.reason += f"; finite-model search failed: {exc!r}"
+                break
+            if m is not None:
+                verdict = "refuted"
+                ob.solver = f"z3 (finite-model search, sequence lengths <= {bound})"
+                ob.model = m
+                break
     if verdict == "undecided" and ob.kind != "canary":
         # quantifier-free relaxation: drop the quantified hypotheses.  unsat is still a proof (fewer hypotheses); a model
         # is only a CANDIDATE counterexample (it may violate a dropped hypothesis) and counts only if the native replay
@@ -268,19 +281,6 @@ def solve_obligation(ob: Obligation, rlimit, model_vars):
                     ob.solver = "z3 (candidate model of the quantifier-free relaxation; counts only if the replay confirms it)"
                 except Exception:  # pragma: no cover
                     pass
-    if verdict == "undecided":
-        # (for the canary a model of the path condition found here shows non-vacuity; it needs no replay)
-        for bound in (FM_BOUNDS if ob.kind != "canary" else FM_BOUNDS[:2] + (8,)):
-            try:
-                m = finite_model_search(ob, bound, model_vars)
-            except Exception as exc:  # pragma: no cover
-                ob.reason += f"; finite-model search failed: {exc!r}"
-                break
-            if m is not None:
-                verdict = "refuted"
-                ob.solver = f"z3 (candidate model from the finite-model search, sequence lengths <= {bound}; counts only if the replay confirms it)"
-                ob.model = m
-                break
     ob.verdict = verdict
     ob.seconds = time.time() - t0
     if os.environ.get("VERIF_DEBUG"):
